@@ -362,6 +362,12 @@ int _vnacal_new_add_common(vnacal_new_add_arguments_t vnaa)
 	abort();
     }
     assert(ptype != '\000');
+    if (min_b_rows > full_m_rows) {
+	min_b_rows = full_m_rows;
+    }
+    if (min_b_columns > full_m_columns) {
+	min_b_columns = full_m_columns;
+    }
 
     /*
      * Check the S matrix size.  TODO: these error messages may be
@@ -504,6 +510,18 @@ int _vnacal_new_add_common(vnacal_new_add_arguments_t vnaa)
 		_vnacal_error(vcp, VNAERR_USAGE,
 			"%s: s_port_index index %d exceeds "
 			"calibration matrix column bound", function, max_port);
+		goto out;
+	    }
+	    if (b_rows < full_m_rows && port > full_m_rows) {
+		_vnacal_error(vcp, VNAERR_USAGE, "%s: port %d has no row in "
+			"the measurement matrix: give all %d rows",
+			function, port, full_m_rows);
+		goto out;
+	    }
+	    if (b_columns < full_m_columns && port > full_m_columns) {
+		_vnacal_error(vcp, VNAERR_USAGE, "%s: port %d has no column "
+			"in the measurement matrix: give all %d columns",
+			function, port, full_m_columns);
 		goto out;
 	    }
 	    if (port_connected[port - 1]) {
